@@ -972,6 +972,10 @@ func (m *monState) onEnd() {
 			run.violate("C03", "r1b", "after the drain phase job %s is still reported running", name)
 		}
 		enters := m.events(name, "run-enter")
+		// C02 r4a: every acyclic graph is accepted (a job that was refused at its start carries an error and no start time)
+		if !a.BadGraph && j.Start == nil && j.Canceled && j.HasError {
+			run.violate("C02", "r4", "job %s has an acyclic task graph (%s) but was refused when it should start: %s", name, graphString(&a.Def), j.LastError)
+		}
 		// C02 r5
 		if a.BadGraph {
 			// (the error text is demanded only when the job itself was refused at its start, see checkSchedule
@@ -1166,4 +1170,13 @@ func sortedJobNames(m map[string]*JobSnap) []string {
 // (the committed hook at its top, and the automatically inserted one before its lock).
 func isSavePoint(point string) bool {
 	return point == "SaveToStore" || strings.HasPrefix(point, "auto.") && strings.Contains(point, ":SaveToStore#")
+}
+
+
+func graphString(p *PipeS) string {
+	var parts []string
+	for _, t := range p.Tasks {
+		parts = append(parts, t.Name+"<-["+strings.Join(t.DependsOn, ",")+"]")
+	}
+	return strings.Join(parts, " ")
 }
